@@ -64,6 +64,14 @@ def rand_ast(rng, depth):
     r_ = rand_ast(rng, depth - 1)
     if op in ('<<', '>>') and rng.random() < 0.8:
         r_ = num(rng.randrange(0, 12), rng)
+    elif op == '<<':
+        # (a shift count in the millions makes an integer of that many bits - minutes of arithmetic, and nothing the statement
+        #  fixes a value for: such counts are not written)
+        try:
+            if abs(E.evaluate(r_, LABELS)) > 4096:
+                r_ = num(rng.randrange(0, 70), rng)
+        except (E.DontCare, KeyError):
+            r_ = num(rng.randrange(0, 70), rng)
     return ['bin', op, l, r_]
 
 
@@ -334,7 +342,9 @@ class C07(core.Check):
             'recogniser rejects them) must be rejected. distinct_nontrivial = distinct operator-shape signatures with >=2 '
             'operators of different precedence levels or a unary minus followed by a binary operator. '
             'evaluations = expressions evaluated (direct channel) + .8byte lines assembled (CLI channel).')
-    assumptions = (
+    assumptions = ('left-shift counts above 4096 are not generated: the value is outside what the statement fixes, and the run is '
+                   'arithmetic on integers of millions of bits (BYTE5(10 << 3150353714) takes 20 CPU seconds in the pinned tree)',
+                   
         'operands of % & | ^ << >> are integer-valued, % has non-negative left / positive right operand, shift counts '
         '0..62, no division by zero, magnitudes < 2^62: outside this domain the case is DONT_CARE',
         'the modulo operator is always surrounded by spaces (a glued % starts a binary literal)',
